@@ -204,6 +204,21 @@ def run(repo: Repo, tier: str) -> Report:
     okd = arms.get((f"is[{dn};None]",)) == f"autocorr_1d_float[{dd}]" and arms.get((f"not[is[{dn};None]]",)) == f"autocorr_1d_int[{dd};{dn}]"
     if not okd:
         okd = arms.get((f"is[{dn};None]",)) == f"autocorr_1d_float[{dd}]" and any(v == f"autocorr_1d_int[{dd};{dn}]" for v in arms.values())
+    if not okd:
+        # the same decision written with direct returns (early return, if/else of returns): value returned on each arm
+        arms = {}
+        for e in [e_ for e_ in dsc.exits if e_.kind == "return" and e_.value is not None]:
+            if e.value.key() == "result":
+                for d in defs:
+                    if d.seq < e.seq:
+                        arms[tuple(e.guards) + tuple(d.guards)] = d.rhs.key()
+            else:
+                arms[tuple(e.guards)] = e.value.key()
+        isn, notn = f"is[{dn};None]", (f"not[is[{dn};None]]", f"isnot[{dn};None]")
+        fl = [v for g, v in arms.items() if isn in g]
+        it = [v for g, v in arms.items() if any(x in g for x in notn)]
+        other = [v for g, v in arms.items() if isn not in g and not any(x in g for x in notn)]
+        okd = fl == [f"autocorr_1d_float[{dd}]"] and it == [f"autocorr_1d_int[{dd};{dn}]"] and not other
     rep.ob("R-FORMULA", FILE, "autocorr_1d", "float/NaN routine when nodata is None, integer/nodata routine otherwise", okd, f"arms: {arms}", "dispatch on nodata is None")
     # ---- layouts
     for fn, sl in (("autocorr", "{x}[{r},{c},:]"), ("autocorr_tyx", "{x}[:,{r},{c}]")):
@@ -241,8 +256,16 @@ def run(repo: Repo, tier: str) -> Report:
                    f"options {o}", "autocorr_tyx map_blocks options", line=s.line)
     m = repo.method("hdc.algo.accessors", "PixelAlgorithms", "autocorr")
     txt = ast.unparse(m)
+    from ..rules import guard_chain
+    T_ = "xx.dims[0] == 'time'"
+    arms_ok = True
+    seen_arms = []
+    for s in sites:
+        pol = [p_ for t_, p_ in guard_chain(m, s.call, canonical=True) if t_ in (T_, "'time' == xx.dims[0]")]
+        seen_arms.append((s.kernel, s.mode, pol))
+        arms_ok = arms_ok and pol == [s.kernel == "autocorr_tyx"]
     rep.ob("R-SIBLING(layout)", AFILE, "PixelAlgorithms.autocorr", "time-first data go to autocorr_tyx, everything else through apply_ufunc (time moved last) to autocorr",
-           "if xx.dims[0] == 'time':" in txt, "", "dispatch on dims[0] == 'time'")
+           arms_ok and len(sites) >= 3, f"(kernel, mode, arm of `{T_}`): {seen_arms}", "dispatch on dims[0] == 'time'")
     # the time-first arm labels the result itself: remaining dims in order, every coordinate but time, the kernel's data
     das = [n for n in ast.walk(m) if isinstance(n, ast.Call) and ast.unparse(n.func).endswith("DataArray")]
     kw = {k_.arg: norm_stmt(k_.value) for k_ in das[0].keywords} if das else {}
